@@ -74,17 +74,14 @@ func goroutines() []gor {
 	return res
 }
 
+var frameArgs = regexp.MustCompile(`\((0x[0-9a-f]+\??|\.\.\.|[{}, ?])*\)?$`)
+
+// topRepoFrame names the innermost frame of the repository on the stack, without its argument values
 func topRepoFrame(stack string) string {
 	for _, l := range strings.Split(stack, "\n") {
 		if strings.HasPrefix(l, "github.com/metrico/qryn/") {
 			f := strings.TrimPrefix(l, "github.com/metrico/qryn/")
-			if i := strings.Index(f, "("); i > 0 && !strings.HasPrefix(f[i:], "(*") {
-				f = f[:i]
-			}
-			if i := strings.LastIndex(f, "("); i > 0 && strings.HasSuffix(f, ")") == false {
-				_ = i
-			}
-			return strings.TrimRight(f, "(")
+			return frameArgs.ReplaceAllString(f, "")
 		}
 	}
 	return ""
